@@ -81,7 +81,7 @@ impl SimTimer {
         if late > 0 {
             w.stat("time.late_timer");
         }
-        let deadline = w.vt.saturating_add(delay_to_deadline);
+        let deadline = w.vt.saturating_add(delay_to_deadline).min(VT_MAX);
         let (id, _label) = w.new_op("timer", Some(delay_to_deadline.saturating_add(late)));
         w.rec(Kind::TimerArm { id, arg, deadline_vt: deadline });
         drop(w);
@@ -91,6 +91,7 @@ impl SimTimer {
 
 impl Timer for SimTimer {
     fn wait_until(&mut self, time: impl Into<PartialComplexTime>) -> BoxFuture<'static, ()> {
+        let _g = EnvGuard::enter();
         let t: PartialComplexTime = time.into();
         let rec = conv::pct(&t);
         // fires when any present bound is reached
@@ -101,11 +102,12 @@ impl Timer for SimTimer {
         let mut delay: Option<u64> = None;
         if let Some(wall) = rec.wall {
             let d = (wall - now_wall).max(0);
-            let d = if d > u64::MAX as i128 / 4 { u64::MAX / 4 } else { d as u64 };
+            let d = if d > (1i128 << 60) { 1u64 << 60 } else { d as u64 };
             delay = Some(d);
         }
         if let Some(mono) = rec.mono {
-            let d = (mono - now_mono).max(0) as u64;
+            let d = (mono as i128 - now_mono as i128).max(0);
+            let d = if d > (1i128 << 60) { 1u64 << 60 } else { d as u64 };
             delay = Some(match delay {
                 Some(x) => x.min(d),
                 None => d,
@@ -115,8 +117,9 @@ impl Timer for SimTimer {
     }
 
     fn wait_for(&mut self, duration: Duration) -> BoxFuture<'static, ()> {
+        let _g = EnvGuard::enter();
         let ns = duration.as_nanos();
-        let d = if ns > (u64::MAX / 4) as u128 { u64::MAX / 4 } else { ns as u64 };
+        let d = if ns > (1u128 << 60) { 1u64 << 60 } else { ns as u64 };
         self.arm(TimerArg::For(ns), d)
     }
 }
